@@ -3,6 +3,7 @@ package main
 import (
 	"math/rand"
 	"strconv"
+	"strings"
 )
 
 // Type-directed generator of draft-4 schemas and instances (family "schema").
@@ -411,7 +412,15 @@ func (g *sgen) instanceFor(s map[string]interface{}, root map[string]interface{}
 		}
 	}
 	if e, ok := s["enum"].([]interface{}); ok && len(e) > 0 && g.p(85) {
-		return e[g.rng.Intn(len(e))]
+		m := e[g.rng.Intn(len(e))]
+		if str, isStr := m.(string); isStr && str != "" && g.p(12) {
+			// the same letters in another case: enum membership is exact
+			if up := strings.ToUpper(str); up != str {
+				return up
+			}
+			return strings.ToLower(str)
+		}
+		return m
 	}
 	for _, key := range []string{"allOf", "anyOf", "oneOf"} {
 		if l, ok := s[key].([]interface{}); ok && len(l) > 0 && g.p(50) {
